@@ -83,7 +83,7 @@ def scheme_rules(ctx):
 def C01(ctx):
     ctx.only = ("K1.", "K4.reclaim-after-unlink", "HP.protocol", "HP.active-gather", "HP.delete-licensed", "HP.validate-after-protect",
                 "HE.protocol", "HE.active-gather", "HE.delete-licensed", "HE.era-after-load", "HE.exception-safety", "HE.retire", "HE.shared-slot",
-                "EBR.protocol", "EBR.orphans", "EBR.constants", "EBR.activity", "EBR.scan-cursor", "QSBR.protocol", "QSBR.constants", "QSBR.activity",
+                "EBR.protocol", "EBR.orphans", "EBR.constants", "EBR.epoch-slots", "EBR.activity", "EBR.scan-cursor", "QSBR.protocol", "QSBR.constants", "QSBR.activity",
                 "STAMP.protocol", "STAMP.delete-licensed", "LFRC.", "K3.", "K13.")
     k1_rules(ctx, "C01")
     reclaim.reclaim_after_unlink(ctx, [".hpp"])
@@ -102,7 +102,7 @@ def C01(ctx):
 
 def C02(ctx):
     ctx.only = ("K1.", "K4.reclaim-after-unlink", "HP.retire", "HP.thread-exit", "HP.delete-licensed", "HP.protocol",
-                "HE.retire", "HE.thread-exit", "HE.delete-licensed", "HE.protocol", "EBR.orphans", "EBR.thread-exit", "EBR.protocol",
+                "HE.retire", "HE.thread-exit", "HE.delete-licensed", "HE.protocol", "EBR.orphans", "EBR.epoch-slots", "EBR.thread-exit", "EBR.protocol",
                 "QSBR.protocol", "QSBR.thread-exit", "STAMP.", "LFRC.delete-licensed", "LFRC.thread-exit", "LFRC.protocol", "LIST.")
     k1_rules(ctx, "C02")
     reclaim.reclaim_after_unlink(ctx, [".hpp"])
@@ -172,6 +172,8 @@ def C08(ctx):
     harris.insert_protocol(ctx)
     harris.find_protocol(ctx)
     harris.iterator_bucket_agreement(ctx)
+    # a traversal is the observable form of "unique keys, all present keys": the iterator rules that decide duplicates / skipped buckets
+    harris.iterator_rules(ctx)
     harris.use_after_move(ctx, FILES["C08"])
     return ("Decides structural necessary conditions of the Harris-Michael set/map: total order of the search predicate (exhaustive), mark-then-"
             "unlink erase protocol with per-attempt validation of the expected value, insert protocol (next before link, same expected, searched "
@@ -204,6 +206,7 @@ def C10(ctx):
     vyukov.locking(ctx)
     vyukov.pool_locking(ctx)
     vyukov.grow_protocol(ctx)
+    vyukov.hash_agreement(ctx)
     ctx.only_skip = ("VHM.iterator-lock",)
     vyukov.iterator_rules(ctx)
     vyukov.cursor_prev_pairing(ctx)
@@ -229,7 +232,7 @@ def C11(ctx):
 
 def C17(ctx):
     ctx.only = ("K1.", "TBL.", "HP.thread-exit", "HP.block-init", "HP.active-gather", "HE.thread-exit", "HE.block-init", "HE.active-gather",
-                "EBR.thread-exit", "EBR.block-init", "EBR.activity", "EBR.scan-cursor", "EBR.orphans", "QSBR.thread-exit", "QSBR.block-init", "QSBR.activity",
+                "EBR.thread-exit", "EBR.block-init", "EBR.activity", "EBR.scan-cursor", "EBR.orphans", "EBR.epoch-slots", "QSBR.thread-exit", "QSBR.block-init", "QSBR.activity",
                 "STAMP.thread-exit", "LFRC.thread-exit", "LIST.",
                 # safety / conservation across thread exit: the scans adopt abandoned nodes before gathering, orphans are re-filed, ...
                 "HP.protocol", "HE.protocol", "EBR.protocol", "QSBR.protocol", "STAMP.protocol", "STAMP.handback-chain")
